@@ -268,7 +268,7 @@ def fill_evidence(ev, pinfo, results, static_facts, undecided, known_lines):
                      'status': r['status'], 'detail': r['detail'][:500], 'solver_s': r['solver_s'], 'wall_s': r.get('wall_s'),
                      'obligations': len(o), 'discharged': len(d), 'obligation_groups': {k: '%d/%d' % (v[1], v[0]) for k, v in sorted(groups.items())},
                      'other_checks_passed': sum(1 for p in r['props'] if p['kind'] != 'obligation' and p['status'] == 'SUCCESS'),
-                     'loop_contracts_applied': r.get('loop_contracts_applied', 0), 'notes': h.notes})
+                     'loop_contracts_applied': r.get('loop_contracts_applied', 0), 'cover_points_reached': '%s/%s' % (r.get('cover_satisfied', '-'), r.get('cover_goals', '-')), 'notes': h.notes})
         if h.enforce:
             fns.add(core.plain(h.enforce))
         for x in h.replace:
